@@ -667,11 +667,14 @@ def build_scrip(am, d, rng):
     ds["grid_corner_lat"] = xr.DataArray(np.array(clat), dims=["grid_size", "grid_corners"], attrs={"units": "degrees"})
     ds["grid_center_lon"] = xr.DataArray(np.array(flon), dims=["grid_size"], attrs={"units": "degrees"})
     ds["grid_center_lat"] = xr.DataArray(np.array([c[1] for c in fc]), dims=["grid_size"], attrs={"units": "degrees"})
-    ds["grid_area"] = xr.DataArray(np.array([0.01 + 0.001 * i for i in range(am.n_face)]), dims=["grid_size"])
+    # areas in km^2 on a sphere of radius 6371 km (deliberately NOT unit-sphere quadrature values)
+    garea = np.array([1.3e5 + 7.25 * i for i in range(am.n_face)])
+    ds["grid_area"] = xr.DataArray(garea, dims=["grid_size"], attrs={"units": "km^2"})
     ds["grid_imask"] = xr.DataArray(np.ones(am.n_face, dtype=np.int32), dims=["grid_size"])
     ds["grid_dims"] = xr.DataArray(np.array([am.n_face], dtype=np.int32), dims=["grid_rank"])
     ex = Expect(am, pos=list(zip(lon, am.lat)))
     ex.aux["face_coords"] = list(zip(flon, [c[1] for c in fc]))
+    ex.aux["areas"] = garea.tolist()
     ex.n_node = len({(lon[i], am.lat[i]) for f in am.faces for i in f})
     padded = any(len(f) < w for f in am.faces)
     return ds, ex, {"clon": clon, "clat": clat, "padded": padded}
@@ -769,7 +772,8 @@ def build_exodus_fixture(d, repo):
 def esmf_dialect(rng, am, force=None):
     d = {"start": rng.choice([None, None, 1, 0]), "store": rng.choice(["int32", "int32", "masked", "int64"]),
          "pad": rng.choice(["fill", "fill", "junk"]), "lon": rng.choice(["360", "180"]),
-         "centers": rng.random() < 0.7, "extra_w": rng.choice([0, 0, 1]), "ndt": rng.choice(["int32", "int8", "int64"])}
+         "centers": rng.random() < 0.7, "extra_w": rng.choice([0, 0, 1]), "ndt": rng.choice(["int32", "int8", "int64"]),
+         "areas": rng.random() < 0.7}
     if force:
         d.update(force)
     return d
@@ -808,7 +812,11 @@ def build_esmf(am, d, rng):
         ds["centerCoords"] = xr.DataArray(np.array([flon, [c[1] for c in fc]]).T.copy(), dims=["elementCount", "coordDim"],
                                           attrs={"units": "degrees"})
         ex.aux["face_coords"] = list(zip(flon, [c[1] for c in fc]))
-    ds["elementArea"] = xr.DataArray(np.array([0.01 + 0.001 * i for i in range(am.n_face)]), dims=["elementCount"])
+    if d.get("areas", True):
+        # arbitrary positive numbers (not unit-sphere areas): a silent recomputation would be visible
+        earea = np.array([42.5 + 0.75 * i for i in range(am.n_face)])
+        ds["elementArea"] = xr.DataArray(earea, dims=["elementCount"], attrs={"units": "arbitrary"})
+        ex.aux["areas"] = earea.tolist()
     ds["elementMask"] = xr.DataArray(np.ones(am.n_face, dtype=np.int32), dims=["elementCount"])
     ds.attrs = {"gridType": "unstructured mesh", "version": "0.9"}
     return ds, ex, {"conn": img(arr), "n": [len(f) for f in am.faces], "start": d["start"]}
